@@ -3263,6 +3263,10 @@ func (vm *Thread) opSubscript() (err value.Value) {
 	if !err.IsUndefined() {
 		return err
 	}
+	if result.IsUndefined() {
+		// not a builtin collection, call the `[]` method
+		return vm.callMethodOnStackByName(symbol.OpSubscript, 1)
+	}
 	vm.pop()
 	vm.replace(result)
 	return value.Undefined
